@@ -480,3 +480,81 @@ def ob_array_nopanic(r, tier, seed):
     r.findings = [f for f in r.findings if f.key.startswith('panic')]
 def obligations_c04():
     return [Ob('O4.7-array-literal-nopanic', 'type checking array literals of 0..2 items never panics', ob_array_nopanic, ('quick', 'thorough'), 3, {})]
+
+# ----------------------------------------------------------------------------- O3.8 a call of a trait method on a trait object checks the remaining arguments against the method signature
+def ob_dyn_call_args(r, tier, seed):
+    W = e2.fresh_world(CRATES); tt = W.tt
+    TY = tt.find_adt(['tast', 'Ty'], 'compiler'); TYPER = tt.find_adt(['typer', 'Typer'], 'compiler')
+    HE = [a for a in tt.by_name['Expr'] if a.crate == 'compiler' and 'hir' in '::'.join(a.path)][0]; DI = tt.find_adt(['diagnostics', 'Diagnostics'], 'diagnostics')
+    HPATH = [a for a in tt.by_name['Path'] if a.crate == 'compiler' and 'hir' in '::'.join(a.path)][0]; PSEG = [a for a in tt.by_name['PathSegment'] if a.crate == 'compiler' and 'hir' in '::'.join(a.path)][0]
+    NR = tt.find_adt(['hir', 'NameRef'], 'compiler')
+    r.bounds = 'the call `Shape::scale(d, a)` with d: dyn Shape, trait method scale(Self, P) -> int32, P in {int32, bool, string} and the argument a one of the literals 1 / true / "s": every combination'
+    r.assumptions = ['trait lookup (resolve_trait_name / lookup_trait_method), the local environment (d: dyn Shape) and result recording are environment stubs; then the real infer_static_member_call_expr, Typer::solve and Typer::subst run',
+                     'oracle: accepted (no diagnostic) iff the literal has the parameter type']
+    from props import c03 as c03m
+    c3 = c03m.Ctx(W); cur = {}
+    def ov(f, g):
+        if 'TypeckResultsBuilder' in g and 'record_' in g:
+            def m_record(ex, f_, a): return UNIT
+            return m_record
+        if g.endswith('lookup_trait_method'):
+            def m_lookup_method(ex, f_, a): return ms.some(cur['method_ty'])
+            return m_lookup_method
+        if g.endswith('LocalTypeEnv::lookup_var'):
+            def m_lookup_var(ex, f_, a): return ms.some(Agg(TY.key, TY.vindex('TDyn'), [mkstr('Shape')]))
+            return m_lookup_var
+        return None
+    W.overrides = [ov, c03m.ena_overrides(c3)]
+    for meth in ('record_expr_result', 'record_expr_ty', 'record_pat_ty', 'record_local_ty', 'record_name_ref_elab', 'record_call_elab'):
+        for nm in list(W.methods.get(meth, [])): W.stubs[nm[1]] = lambda ex, a: UNIT
+    W.stubs['resolve_trait_name'] = lambda ex, a: ms.some(Agg('tuple', 0, [mkstr('Shape'), Ref(cur, 'genv')]))
+    for nm in list(W.methods.get('lookup_trait_method', [])): W.stubs[nm[1]] = lambda ex, a: ms.some(cur['method_ty'])
+    for nm in list(W.methods.get('lookup_var', [])): W.stubs[nm[1]] = lambda ex, a: ms.some(Agg(TY.key, TY.vindex('TDyn'), [mkstr('Shape')]))
+    for meth in ('local_hint', 'local_ident_name'):
+        for nm in list(W.methods.get(meth, [])): W.stubs[nm[1]] = lambda ex, a: mkstr('d')
+    def stub_expr(ex, a):
+        eid = a[1]
+        while isinstance(eid, Agg): eid = eid.fields[-1]
+        return Ref(cur['exprs'], eid)
+    for nm in list(W.methods.get('expr', [])):
+        if nm[2] is not None and nm[2].self_key == 'HirTable': W.stubs[nm[1]] = stub_expr
+    eid = lambda i: Agg('ExprId', 0, [Agg('PackageId', 0, [1]), i])
+    PT = {'TInt32': 'int', 'TBool': 'bool', 'TString': 'str'}
+    def entry(ex):
+        pty = ex.choose([(True, t) for t in sorted(PT)]); lit = ex.choose([(True, 'int'), (True, 'bool'), (True, 'str')])
+        T = lambda n, *f: Agg(TY.key, TY.vindex(n), list(f))
+        cur['method_ty'] = T('TFunc', PyVec([T('TParam', mkstr('Self')), T(pty)]), mkbox(T('TInt32')))
+        cur['genv'] = Opaque('genv')
+        local = Agg(NR.key, NR.vindex('Local'), [Agg('LocalId', 0, [Agg('PackageId', 0, [1]), 0])])
+        nref = Agg(HE.key, HE.vindex('ENameRef'), [{'res': local, 'hint': mkstr('d'), 'astptr': ms.NONE()}.get(f[0], ms.NONE()) for f in HE.variants[HE.vindex('ENameRef')].fields])
+        arg = {'int': Agg(HE.key, HE.vindex('EInt'), [mkstr('1')]), 'bool': Agg(HE.key, HE.vindex('EBool'), [True]), 'str': Agg(HE.key, HE.vindex('EString'), [mkstr('s')])}[lit]
+        cur['exprs'] = {1: nref, 2: arg}
+        path = Agg(HPATH.key, 0, [PyVec([Agg(PSEG.key, 0, [mkstr('Shape')]), Agg(PSEG.key, 0, [mkstr('scale')])])])
+        typer = Agg(TYPER.key, 0, [{'uni': c03m.UTable(), 'constraints': PyVec([]), 'hir_table': Opaque('hir_table'), 'results': Opaque('results')}[f[0]] for f in TYPER.variants[0].fields])
+        h = {0: typer, 1: Opaque('genv'), 2: Opaque('local_env'), 3: Agg(DI.key, 0, [PyVec([])]), 4: path, 5: PyVec([eid(1), eid(2)])}
+        out = ex.call('Typer::infer_static_member_call_expr', [Ref(h, 0), Ref(h, 1), Ref(h, 2), Ref(h, 3), eid(10), eid(11), Ref(h, 4), ms.NONE(), Ref(h, 5)])
+        ex.call('Typer::solve', [Ref(h, 0), Ref(h, 1), Ref(h, 3)])
+        ex.call('Typer::subst', [Ref(h, 0), Ref(h, 3), out])
+        return pty, lit, len(h[3].fields[0].items)
+    res = e2.explore(r, W, entry, [])
+    for p in res:
+        r.cases += 1
+        if p.kind != 'ok':
+            if not any(f.key == 'panic' for f in r.findings): r.findings.append(Finding('panic', 'typing a dyn method call panics: %s' % p.value, {}, False, 'not replayed'))
+            continue
+        pty, lit, nd = p.value; want_ok = PT[pty] == lit; r.nontrivial += 1
+        if (nd == 0) != want_ok and not any(f.key.startswith('dyn-call') for f in r.findings):
+            litsrc = {'int': '1', 'bool': 'true', 'str': '"s"'}[lit]
+            src = 'struct C { r: int32 }\ntrait Shape { fn scale(Self, %s) -> int32; }\nimpl Shape for C { fn scale(self: C, k: %s) -> int32 { self.r } }\nfn main() -> unit { let d: dyn Shape = C { r: 1 }; let x = Shape::scale(d, %s); () }\n' % (goml_ty(pty), goml_ty(pty), litsrc)
+            d = tempfile.mkdtemp(prefix='vf-c03-')
+            try:
+                open(os.path.join(d, 'main.gom'), 'w').write(src)
+                pr = subprocess.run([build.compiler_bin(), 'run', '--dump-tast', os.path.join(d, 'main.gom')], capture_output=True, text=True, timeout=60)
+            finally: shutil.rmtree(d, ignore_errors=True)
+            txt = pr.stdout + pr.stderr; rejected = 'error (' in txt or 'error:' in txt
+            r.findings.append(Finding('dyn-call-ill-typed-argument-accepted' if not want_ok else 'dyn-call-well-typed-argument-rejected', '`Shape::scale(d, %s)` with parameter type %s: %d diagnostics' % (litsrc, goml_ty(pty), nd), {'param': pty, 'arg': lit}, rejected == want_ok, 'goml `%s`: %s' % (src.replace('\n', ' | '), 'rejected: ' + txt[:100] if rejected else 'accepted')))
+    r.samples = []
+
+_obs37 = obligations
+def obligations():
+    return _obs37() + [Ob('O3.8-dyn-call-arguments', 'the arguments of a trait-object method call are checked against the method signature', ob_dyn_call_args, ('quick', 'thorough'), 3, {})]
